@@ -161,6 +161,7 @@ def units(tier):
     us += [(n, dict(k, kind='riemann', tier=tier)) for n, k in rk.units('C02', ['rootspec', 'shocks', 'contact'], tier)]
     us.append(('guderley', {'kind': 'gud'}))
     us.append(('ehep', {'kind': 'ehep'}))
+    us.append(('mader', {'kind': 'mader'}))
     us += [('sedov/geometry=%d' % j_, {'kind': 'sedov', 'key': j_}) for j_ in (1, 2, 3)]
     return us
 
@@ -174,6 +175,9 @@ def run_unit(name, kind, key=None, case=None, tier='quick', pat=None, fam=None):
     if kind == 'ehep':
         from props import ehep_kit
         return ehep_kit.unit_boundaries()
+    if kind == 'mader':
+        from props import mader_kit
+        return mader_kit.unit_cj()
     if kind == 'sedov':
         from props import sedov_kit
         return sedov_kit.unit_shock('C02', key)
